@@ -2,7 +2,7 @@ from engine.core import Job
 META = dict(
     level="other",
     claim="The -E token printer (real print_tokens/need_space) writes every spelling once and in order, starts a new line exactly for tokens that begin a line, keeps source white space, and writes a separator between any two adjacent tokens whose concatenated spellings an independent C11 6.4 maximal-munch lexer would not split after the first token — for every ordered pair from a 26-spelling alphabet (punctuators incl. digraph parts, identifiers, pp-numbers incl. an exponent stem, a string literal and an encoding prefix) and all flag combinations.",
-    note="Bounded by the spelling alphabet; only adjacent pairs (the predicate is pairwise). Assumed: fprintf is the ghost writer. Not covered: that the real tokenizer agrees with the spec lexer, white-space flag propagation through macro expansion, idempotence of -E on its own output.",
+    note="Bounded by the spelling alphabet; only adjacent pairs (the predicate is pairwise). Assumed: fprintf is the ghost writer. The tokens' macro provenance (origin) is symbolic and must not influence the printer; preprocess() hands back every token it was given (adjacent string literals stay separate for -E). Not covered: that the real tokenizer agrees with the spec lexer, white-space flag propagation through macro expansion, idempotence of -E on its own output.",
     functions=["main.c:print_tokens", "main.c:need_space", "preprocess.c:preprocess"],
     trusted_base=["CBMC 6.11", "spec lexer in harness/C19/print.c"],
     assumptions=["ghost fprintf"],
